@@ -16,6 +16,7 @@ import (
 
 	protocol "github.com/longportapp/openapi-protocol/go"
 	_ "github.com/longportapp/openapi-protocol/go/v1"
+	"github.com/longportapp/openapi-protocol/go/verifhook"
 )
 
 func init() {
@@ -147,9 +148,11 @@ func (conn *wsConn) write(data []byte) error {
 	if conn.closed() {
 		return errConnClosed
 	}
+	verifhook.Point("conn.write:before-enqueue", verifhook.ID(conn))
 
 	select {
 	case conn.writeCh <- data:
+		verifhook.Point("conn.write:enqueued", verifhook.ID(conn), uint64(len(data)))
 		return nil
 	default:
 	}
@@ -164,6 +167,7 @@ func (conn *wsConn) OnPacket(fn func(*protocol.Packet, error)) {
 
 		go func() {
 			defer close(conn.packetCh)
+			defer verifhook.Point("conn.dispatcher:exit", verifhook.ID(conn))
 
 			for {
 				if conn.closed() {
@@ -256,6 +260,7 @@ func (conn *wsConn) onPong(data string) error {
 }
 
 func (conn *wsConn) reading() {
+	defer verifhook.Point("conn.reader:exit", verifhook.ID(conn))
 	for {
 		if conn.closed() {
 			return
@@ -299,10 +304,12 @@ func (conn *wsConn) addPacket(p *protocol.Packet) {
 	case conn.packetCh <- p:
 	default:
 		conn.logger.Warn("drop packet for channel full")
+		verifhook.Point("conn.addPacket:drop", verifhook.ID(conn))
 	}
 }
 
 func (conn *wsConn) writing() {
+	defer verifhook.Point("conn.writer:exit", verifhook.ID(conn))
 	for {
 		b, ok := <-conn.writeCh
 		if !ok {
